@@ -90,7 +90,14 @@ def gen_call_1d(rng, last=None):
         if rng.random() < 0.05:
             p = -1
         kw = {'poly_order': p}
-        w = rng.choice([None, None, 'ok', 'ok', 'bad']) if rng.random() < 0.6 else None
+        w = rng.choice([None, None, 'ok', 'pool', 'pool', 'bad']) if rng.random() < 0.6 else None
+        if 'pool_call' in last and rng.random() < 0.45:
+            # the same weights OBJECT (refilled in place) again, same method family and order as its last use
+            m, p = last['pool_call']
+            kw = {'poly_order': p}
+            w = 'pool'
+        if w == 'pool':
+            last['pool_call'] = (m, p)
     elif r < 0.48:
         m = rng.choice(['dietrich', 'swima', 'cwt_br'])
         if m == 'dietrich':
@@ -139,11 +146,11 @@ def gen_call_1d(rng, last=None):
             elif t < 0.12:
                 do = k + d - 1
             kw = {'num_knots': k, 'spline_degree': d, 'diff_order': do}
-            w = rng.choice([None, None, None, 'ok', 'bad'])
+            w = rng.choice([None, None, None, 'ok', 'pool', 'bad'])
     elif r < 0.88:
         m = rng.choice(WHITS)
         kw = {'diff_order': rng.choice([1, 2, 2, 3, 0])}
-        w = rng.choice([None, None, 'ok', 'bad'])
+        w = rng.choice([None, None, 'ok', 'pool', 'bad'])
     elif r < 0.94:
         m = rng.choice(sorted(UNIQUE_PLAIN))
     else:
@@ -151,6 +158,9 @@ def gen_call_1d(rng, last=None):
     t = rng.random()
     if t < 0.05:
         data = 'short'
+        w = 'ok' if w == 'pool' else w
+    elif t > 0.75:
+        data = 'pool'
     elif t < 0.08:
         data = 'nan'
     elif t < 0.12 and m in ('poly', 'imodpoly', 'quant_reg', 'pspline_asls', 'asls'):
@@ -193,7 +203,7 @@ def args_1d(m, kw, nd, dataok, w, pre, post, N=0):
         if name in kw:
             return kw[name]
         return sig[name].default if name in sig else 0
-    wl = None if w is None else ((nd if nd is not None else N) + (0 if w == 'ok' else 1))
+    wl = None if w is None else ((nd if nd is not None else N) + (0 if w in ('ok', 'pool') else 1))
     mi = val('max_iter')
     return ('{| a_data := %s; a_dataok := %s; a_w := %s; a_poly := %s; a_knots := %s; a_degree := %s; a_dorder := %s; '
             'a_maxiter_pos := %s; a_lam_given := %s; a_pre_raise := %s; a_post_raise := %s |}'
@@ -220,7 +230,7 @@ def group_1d(call, N, raised):
     """One user-level call as a list of Coq `item`s (an optimizer: its own prologue, then its delegated calls)."""
     if call['m'] == 'set_solver':
         return [f'ISolver {zl(call["v"])}']
-    nd = {'ok': N, 'nan': N, 'short': N - 1, 'none': None}[call['data']]
+    nd = {'ok': N, 'pool': N, 'nan': N, 'short': N - 1, 'none': None}[call['data']]
     kw = dict(SPEED.get(call['m'], {}))
     kw.update(call['kw'])
     inner = inner_calls(call) if call['m'] in OPTIMIZERS else []
@@ -254,8 +264,21 @@ def make_x(kind, N, seed):
     return x
 
 
-def call_args_1d(call, N, y):
-    data = {'ok': y, 'none': None, 'short': y[:-1], 'nan': None}[call['data']]
+def refill(buf, base, idx):
+    """New values IN PLACE into a reusable argument object (the object identity is kept across calls)."""
+    buf[...] = base * (1.0 + 0.03 * ((idx * 7) % 5 - 2)) + ((np.arange(buf.size).reshape(buf.shape) * 3 + idx) % 4) * 0.05
+    return buf
+
+
+def call_args_1d(call, N, y, pool=None, idx=0, fresh=False):
+    """pool: per-history reusable argument OBJECTS {'w': float64 (N,) array, 'y': float64 (N,) array}; a call with
+    weights / data kind 'pool' refills the object in place and passes the SAME object again (the fresh object
+    gets copies of the current values)."""
+    data = {'ok': y, 'pool': y, 'none': None, 'short': y[:-1], 'nan': None}[call['data']]
+    if call['data'] == 'pool' and pool is not None:
+        if not fresh:
+            refill(pool['y'], y, idx)
+        data = pool['y'].copy() if fresh else pool['y']
     if call['data'] == 'nan':
         data = y.copy()
         data[N // 3] = np.nan
@@ -267,6 +290,12 @@ def call_args_1d(call, N, y):
         data = np.vstack([y, 1.1 * y + 1])
     nd = N - 1 if call['data'] == 'short' else N
     if call['w'] == 'ok':
+        kw['weights'] = np.linspace(0.5, 1.5, nd)
+    elif call['w'] == 'pool' and pool is not None and nd == N:
+        if not fresh:
+            refill(pool['w'], np.linspace(0.5, 1.5, N), idx)
+        kw['weights'] = pool['w'].copy() if fresh else pool['w']
+    elif call['w'] == 'pool':
         kw['weights'] = np.linspace(0.5, 1.5, nd)
     elif call['w'] == 'bad':
         kw['weights'] = np.linspace(0.5, 1.5, nd + 1)
@@ -381,12 +410,14 @@ def run_history_1d(h, check_fresh=True):
     f = new_1d(x_in)
     recs = []
     diffs = []
+    pool = {'w': np.ones(N), 'y': y.copy()}
     for i, call in enumerate(h['calls']):
-        args = None if call['m'] == 'set_solver' else call_args_1d(call, N, y)
+        # the reusable objects are refilled first; the fresh object then gets copies of their current values
+        args = None if call['m'] == 'set_solver' else call_args_1d(call, N, y, pool, i)
         ref = None
         if check_fresh and call['m'] != 'set_solver':
             g = fresh_1d(f, x_in)
-            args_g = call_args_1d(call, N, y)
+            args_g = call_args_1d(call, N, y, pool, i, fresh=True)
             ref = do_call(g, call, args_g)
         res = do_call(f, call, args)
         recs.append((observe_1d(f) + [1 if res[0] == 'raise' else 0], res[0], res[1] if res[0] == 'raise' else None))
@@ -623,7 +654,8 @@ def run(ctx):
                 '(polynomial orders up/down/same, weighted/unweighted, Vandermonde-only methods, spline (num_knots, degree) pairs incl. pairs '
                 'with equal num_knots+degree, require_unique_x methods, solver setter, wrong-length/NaN/None data, bad weights, '
                 'invalid orders/knots/degrees/diff_order, bodies that raise after their setup); x in {None (lazy), uniform, random, '
-                'with a duplicate, unsorted}; distinct = distinct history; non-trivial = at least two different polynomial orders '
+                'with a duplicate, unsorted}; per history a pool of reusable argument OBJECTS (one weights array, one data array) that calls '
+                'refill in place and pass again (the fresh object gets copies of the current values); distinct = distinct history; non-trivial = at least two different polynomial orders '
                 'or two different spline keys in the history')
     ctx.trusted += [
         'np.linalg.pinv, polyvander, SplineBasis, mapdomain are deterministic functions of their arguments (Section variables '
@@ -650,7 +682,7 @@ def run(ctx):
              f'{num} calls raised something other than ValueError (numerical failures in the body; every raise is accepted at the predicted stage or at the end of the body, the cache state must match either way). '
              '1-D optimizers are in the histories (adaptive_minmax and collab_pls as groups of delegated calls on the same object, '
              'optimize_extended_range and custom_bc fit on a new object via _override_x); 2-D adaptive_minmax / collab_pls / individual_axes likewise. '
-             '2-D histories include pspline_iasls pairs whose keys differ on exactly one axis (lazy full basis). Not covered: nested optimizers; objects whose lazily created x has one point; non-integer / array-like parameters; '
+             '2-D histories include pspline_iasls pairs whose keys differ on exactly one axis (lazy full basis). Not covered: reusable objects for parameters other than weights / data (alpha, x given to the constructor); nested optimizers; objects whose lazily created x has one point; non-integer / array-like parameters; '
              'check_finite=False objects; pentapy-absent environments')
 
 
